@@ -1620,4 +1620,50 @@ example : ∃ ops, line "#pragma AVRPART MEMORY  PROG_FLASH 2048 ; words".toList
     (by decide) (hb _ (by simp)) (Or.inr ⟨Or.inl rfl, rfl⟩)
   exact ⟨_, this⟩
 
+/-- the operands of an assignment: `NAME = expression` -/
+theorem directiveOps_assign (sym wsB wsC : Str) (k : Nat) (e : Expr) (s : Str) (ws2 c : Str)
+    (hsym : isName sym) (hwsB : blanks wsB) (hwsC : blanks wsC) (hsp : Spaced 0 k e s) (hws2 : blanks ws2) (hc : lineEnd c) :
+    directiveOps (sym ++ (wsB ++ '=' :: (wsC ++ (s ++ (ws2 ++ c))))) = .ok (.assign (.ident sym) e) (ws2 ++ c) := by
+  have hg := Dpd.ofExpr_ok k e s hsp
+  have hrest := afterOpd_end ws2 c hws2 hc
+  have he : expr (s ++ (ws2 ++ c)) = .ok e (ws2 ++ c) := by
+    have := hg.1 (ws2 ++ c) hrest
+    simp only [Dpd.ofExpr] at this
+    unfold directiveOp at this
+    cases hx : expr (s ++ (ws2 ++ c)) with
+    | ok e' r' => rw [hx] at this; simp only [PO.ok.injEq, Operand.e.injEq] at this; obtain ⟨rfl, rfl⟩ := this; rfl
+    | fail =>
+      rw [hx] at this; simp only at this
+      split at this <;> simp at this
+    | oof => rw [hx] at this; simp at this
+  have hsks : skipSpace (s ++ (ws2 ++ c)) = s ++ (ws2 ++ c) := skip_spaced 0 k e s hsp _
+  unfold directiveOps
+  have hid : identText (sym ++ (wsB ++ '=' :: (wsC ++ (s ++ (ws2 ++ c))))) = some (sym, wsB ++ '=' :: (wsC ++ (s ++ (ws2 ++ c)))) :=
+    identText_name sym _ hsym (by
+      intro y hy
+      cases wsB with
+      | nil => simp at hy; subst hy; decide
+      | cons b bs =>
+        simp at hy; subst hy
+        have hb : isSpace b = true := hwsB b (by simp)
+        simp only [isSpace, Bool.or_eq_true, beq_iff_eq] at hb
+        rcases hb with rfl | rfl <;> decide)
+  have hsk1 : skipSpace (wsB ++ '=' :: (wsC ++ (s ++ (ws2 ++ c)))) = '=' :: (wsC ++ (s ++ (ws2 ++ c))) := by
+    rw [space_absorbs wsB _ hwsB]; simp +decide [skipSpace]
+  have hsk2 : skipSpace (wsC ++ (s ++ (ws2 ++ c))) = s ++ (ws2 ++ c) := by
+    rw [space_absorbs wsC _ hwsC, hsks]
+  simp only [hid, hsk1, hsk2, he]
+
+/-- **An assignment directive, in full**: `.` or `#`, behind a label or not -/
+theorem assignment_line (lab : Option Str) (labText ws1 : Str) (p : Char) (dname wsA sym wsB wsC : Str) (k : Nat) (e : Expr)
+    (s ws2 c : Str) (hp : p = '.' ∨ p = '#')
+    (hlabel : (lab = none ∧ labText = []) ∨ ∃ l, isName l ∧ lab = some (lower l) ∧ labText = l ++ [':'])
+    (hws1 : blanks ws1) (hname : dname ≠ []) (hlow : ∀ ch ∈ dname, isLowerAlpha ch = true)
+    (hwsA : blanks wsA) (hA : wsA ≠ []) (hsym : isName sym) (hwsB : blanks wsB) (hwsC : blanks wsC)
+    (hsp : Spaced 0 k e s) (hws2 : blanks ws2) (hc : lineEnd c) :
+    line (labText ++ (ws1 ++ (p :: (dname ++ (wsA ++ (sym ++ (wsB ++ '=' :: (wsC ++ (s ++ (ws2 ++ c)))))))))) =
+      .ok (.directiveLine lab (directiveOfName dname) (.assign (.ident sym) e)) :=
+  directive_line_of_ops lab labText ws1 p dname wsA _ _ ws2 c hp hlabel hws1 hname hlow hwsA hA
+    (directiveOps_assign sym wsB wsC k e s ws2 c hsym hwsB hwsC hsp hws2 hc) (skip_name sym _ hsym) hws2 hc
+
 end Avra.Props.C14
